@@ -297,7 +297,7 @@ def caller_cases(draw):
     ia = np.array(draw(gen.flat_labels(n, lk)))
     ca = np.array(draw(gen.flat_labels(m, 'str')))
     order = draw(st.sampled_from(['C', 'F'])) if ndim == 2 else 'C'
-    return {'ctor': ci, 'a': a, 'ia': ia, 'ca': ca, 'order': order}
+    return {'ctor': ci, 'a': a, 'ia': ia, 'ca': ca, 'order': order, 'view': draw(st.sampled_from(['own', 'own', 'view']))}
 
 
 def _scramble(a):
@@ -337,12 +337,18 @@ def check_caller(case):
     ia = np.array(case['ia'])
     ca = np.array(case['ca'])
     assert a.flags.writeable and ia.flags.writeable
+    bases = (a, ia, ca)
+    if case.get('view', 'own') != 'own':
+        # the caller hands over writeable *views* of arrays it keeps: writes through the bases must stay invisible
+        # even if the library were to freeze the view it received (a read-only view is "already read-only" and
+        # may legitimately be kept, so that case is not generated)
+        a, ia, ca = a[...], ia[...], ca[...]
     c = lib(fn, a, ia, ca)
     if isinstance(c, Raised):
         raise Discard('constructor rejected input: %s' % name)
     s0 = obs.snap(c)
     assert_frozen(c, name)
-    wrote = [_scramble(x) for x in (a, ia, ca)]
+    wrote = [_scramble(x) for x in bases]
     if name == 'Frame.from_structured_array':
         sa = _from_structured.last
         if sa.flags.writeable:
